@@ -37,6 +37,7 @@ type C05Body struct {
 	GC       bool     `json:"gc"`
 	Prune    bool     `json:"prune"`
 	GraceMS  int      `json:"grace_ms"`
+	LockMS   int      `json:"lock_ms,omitempty"` // manifest LOCK time-out (0 = the shipped 100 ms)
 	Iters    int      `json:"iters"`
 	MemTable uint64   `json:"mem_table"`
 	YieldOps []string `json:"yield_ops"`
@@ -56,7 +57,8 @@ func (C05) Generate(seed uint64, tier string) *core.Scenario {
 	b.Conjoin = r.Chance(1, 2)
 	b.GC = r.Chance(1, 2)
 	b.Prune = r.Chance(2, 3)
-	b.GraceMS = []int{5, 50, 400, 3000}[r.Intn(4)]
+	b.GraceMS = []int{1, 5, 20, 50, 400, 3000}[r.Intn(6)] // mostly short: a writer parked for a few simulated ms has then stalled "longer than grace"
+	b.LockMS = []int{0, 0, 1000, 10000}[r.Intn(4)]
 	b.Iters = r.Range(2, 4)
 	b.MemTable = uint64([]int{512, 2 << 10, 64 << 10}[r.Intn(3)])
 	for _, o := range []string{"rename", "remove", "create", "open", "stat", "fsync", "readdir", "write"} {
@@ -140,6 +142,8 @@ func (C05) Execute(t *testing.T, sc *core.Scenario) *core.Result {
 	sos.Now = time.Now // simulated mtimes (fake clock inside the bubble)
 	sos.Install()
 	defer simos.Uninstall()
+	oldLock := nbs.DsimSetLockFileTimeout(time.Duration(b.LockMS) * time.Millisecond)
+	defer nbs.DsimSetLockFileTimeout(oldLock)
 	dir := filepath.Join(root, "db")
 	os.Mkdir(dir, 0o755)
 	q := nbs.NewUnlimitedMemQuotaProvider()
@@ -328,7 +332,7 @@ func (C05) Execute(t *testing.T, sc *core.Scenario) *core.Result {
 			return
 		}
 		defer func() { sos.SetActor(12); st.Close() }()
-		for it := 0; it < b.Iters+1; it++ {
+		for it := 0; it < 2*b.Iters+2; it++ {
 			tk.Yield("prune-iter")
 			sos.SetActor(12)
 			if err := st.Rebase(ctx); err != nil {
@@ -383,8 +387,8 @@ func (C05) Execute(t *testing.T, sc *core.Scenario) *core.Result {
 			res.Violate("final-open-failed", "-", 0, "%s", firstLine(err))
 		} else {
 			rt, _ := st.Root(ctx)
+			seen := hash.NewHashSet()
 			if !rt.IsEmpty() {
-				seen := hash.NewHashSet()
 				stack := []hash.Hash{rt}
 				for len(stack) > 0 {
 					h := stack[len(stack)-1]
@@ -400,6 +404,17 @@ func (C05) Execute(t *testing.T, sc *core.Scenario) *core.Result {
 					}
 					kids, _ := DecodeKids(c.Data())
 					stack = append(stack, kids...)
+				}
+			}
+			// every root chunk names the root it replaced, so the final root's closure holds every root
+			// whose commit was acknowledged: a manifest update by a conjoin or a collection that puts an
+			// older root back loses acknowledged commits
+			if !res.Violated() {
+				for _, h := range core.SortedKeys(published) {
+					if hh, ok := hash.MaybeParse(h); ok && !seen.Has(hh) {
+						res.Violate("acknowledged-commit-lost", "final-root="+map[bool]string{true: "empty", false: "older-or-foreign"}[rt.IsEmpty()], 0, "commit of root %s was acknowledged to a writer, the final root %s does not descend from it (%d roots acknowledged, %d chunks under the final root)", short(hh), short(rt), len(published), seen.Size())
+						break
+					}
 				}
 			}
 			st.Close()
